@@ -1209,10 +1209,13 @@ func (p *constructPlan) Execute(ctx context.Context) (*table.Table, error) {
 	}
 	// The buffered channel has capacity to accommodate twice the amount of triples stored in a single call.
 	tripChan := make(chan *triple.Triple, 2*p.bulkSize)
-	done := make(chan bool)
+	done := make(chan error)
 
 	go func() {
-		var ts []*triple.Triple
+		var (
+			ts   []*triple.Triple
+			errs []string
+		)
 		updateFunc := func(g storage.Graph, d []*triple.Triple) error {
 			gID := g.ID(ctx)
 			nTrpls := len(d)
@@ -1238,27 +1241,41 @@ func (p *constructPlan) Execute(ctx context.Context) (*table.Table, error) {
 		for elem := range tripChan {
 			ts = append(ts, elem)
 			if len(ts) >= p.bulkSize {
-				update(ctx, ts, p.stm.OutputGraphNames(), p.store, updateFunc)
+				if err := update(ctx, ts, p.stm.OutputGraphNames(), p.store, updateFunc); err != nil {
+					errs = append(errs, err.Error())
+				}
 				ts = []*triple.Triple{}
 			}
 		}
 		if len(ts) > 0 {
-			update(ctx, ts, p.stm.OutputGraphNames(), p.store, updateFunc)
+			if err := update(ctx, ts, p.stm.OutputGraphNames(), p.store, updateFunc); err != nil {
+				errs = append(errs, err.Error())
+			}
 		}
-		done <- true
+		if len(errs) > 0 {
+			done <- errors.New(strings.Join(errs, "; "))
+			return
+		}
+		done <- nil
 	}()
+	// abort ends the writer goroutine (it writes what it was already handed) and waits for it before returning.
+	abort := func(err error) (*table.Table, error) {
+		close(tripChan)
+		<-done
+		return nil, err
+	}
 
 	for _, cc := range p.stm.ConstructClauses() {
 		for _, r := range tbl.Rows() {
 			t, err := p.processConstructClause(cc, tbl, r)
 			if err != nil {
-				return nil, err
+				return abort(err)
 			}
 			if len(cc.PredicateObjectPairs()) > 1 {
 				// We need to reify a blank node.
 				rts, bn, err := t.Reify()
 				if err != nil {
-					return nil, fmt.Errorf("triple.Reify failed to reify %v with error %v", t, err)
+					return abort(fmt.Errorf("triple.Reify failed to reify %v with error %v", t, err))
 				}
 				for _, trpl := range rts[1:] {
 					tripChan <- trpl
@@ -1266,11 +1283,11 @@ func (p *constructPlan) Execute(ctx context.Context) (*table.Table, error) {
 				for _, pop := range cc.PredicateObjectPairs()[1:] {
 					rprd, robj, err := p.processPredicateObjectPair(pop, tbl, r)
 					if err != nil {
-						return nil, err
+						return abort(err)
 					}
 					rt, err := triple.New(bn, rprd, robj)
 					if err != nil {
-						return nil, err
+						return abort(err)
 					}
 					tripChan <- rt
 				}
@@ -1281,7 +1298,9 @@ func (p *constructPlan) Execute(ctx context.Context) (*table.Table, error) {
 	}
 	close(tripChan)
 	// Wait until all triples are added to the store.
-	<-done
+	if err := <-done; err != nil {
+		return nil, err
+	}
 	return tbl, nil
 }
 
